@@ -47,5 +47,6 @@ func updatePackageInfoFromArgs(packageInfo *packaging.PackageInfo, configArgs ma
 		return fmt.Errorf("error overriding package info: %w", err)
 	}
 
-	return nil
+	// The overrides may have broken what was checked when the package was loaded
+	return packageInfo.CheckSettings()
 }
